@@ -13,7 +13,8 @@ RULE = (
     "Oracle: set of winding-number-1 cycles of the reference RAW relation == reported set (soundness and "
     "completeness, each once), latency == sum along the cycle, per-member latencies add up, Summary.LCD == max "
     "(0 if none). Non-trivial: >=2 cycles sharing an instruction, or a cycle with >=2 members, or a self-loop "
-    "plus another cycle. Distinct = distinct (ISA db, kernel, flag option, first line)."
+    "plus another cycle. Additionally the curated real vocabulary of C03(b) on shipped models (member sets against "
+    "the architectural RAW relation, no flag dependencies). Distinct = distinct (ISA db, kernel, flag option, first line)."
 )
 ASSUMPTIONS = [
     "an edge with two admissible weights may contribute either weight to the cycle latency",
@@ -47,6 +48,8 @@ def lcd_sets(case, dg):
 
 
 def check_case(case):
+    if case.get("kind") == "real5":
+        return check_real(case)
     from checks import c03
     from osaca.frontend import Frontend
 
@@ -104,14 +107,90 @@ def check_case(case):
                        "cycles": sorted([sorted(c), sorted(ref[c])] for c in ref)}}
 
 
+def ref_cycles_real(case):
+    """winding-number-1 cycles of the curated-vocabulary reference relation (member position sets)"""
+    from checks import c03_real
+
+    n = len(case["lines"])
+    E2, unsure = c03_real.ref_edges(dict(case, lines=case["lines"] + case["lines"]))
+    adj = {}
+    for (a, b) in E2:
+        adj.setdefault(a, []).append(b)
+    res = set()
+
+    def dfs(start, node, path):
+        for b in adj.get(node, ()):
+            if b == start + n:
+                res.add(frozenset(x % n for x in path))
+            elif b < start + n and b not in path:
+                dfs(start, b, path + [b])
+
+    for s_ in range(n):
+        dfs(s_, s_, [s_])
+    return res
+
+
+def check_real(case):
+    """curated real vocabulary on a shipped model: reported cycles == cycles of the architectural RAW relation"""
+    from checks import c03_real
+    from osaca.parser import ParserAArch64, ParserX86ATT
+    from osaca.semantics import ArchSemantics, KernelDG, MachineModel
+
+    arch = case["arch"]
+    if arch not in c03_real._M:
+        if len(c03_real._M) > 2:
+            c03_real._M.clear()
+        mm = guard(MachineModel, arch=arch, what="MachineModel")
+        c03_real._M[arch] = (mm, guard(ArchSemantics, mm, what="ArchSemantics"))
+    mm, sem = c03_real._M[arch]
+    isa = case["isa"]
+    parser = ParserX86ATT() if isa == "x86" else ParserAArch64()
+    text = "\n".join("%s %s" % (l["mn"], ", ".join(o["t"] for o in l["ops"])) for l in case["lines"]) + "\n"
+    kernel = guard(parser.parse_file, text, what="parse_file")
+    guard(sem.add_semantics, kernel, what="add_semantics")
+    dg = guard(KernelDG, kernel, parser, mm, sem, timeout=-1, flag_dependencies=False, what="KernelDG")
+    got = lcd_sets(dict(case, first_line=0), dg)
+    ref = ref_cycles_real(case)
+    tag = "real:" + isa
+    for ms in ref:
+        if ms not in got:
+            raise Violation("lcd-missing:" + tag, "a cross-iteration dependency cycle is not reported (%s on %s)" % (
+                [text.split("\n")[i] for i in sorted(ms)], arch), sorted(map(sorted, got)), sorted(ms))
+    for ms in got:
+        if ms not in ref:
+            raise Violation("lcd-spurious:" + tag, "a reported loop-carried dependency is not a cycle of the "
+                            "dependency relation (%s on %s)" % ([text.split("\n")[i] for i in sorted(ms)], arch),
+                            sorted(ms), sorted(map(sorted, ref)))
+    cyc = list(ref)
+    nt = any(a & b for i, a in enumerate(cyc) for b in cyc[i + 1:]) or any(len(c) >= 2 for c in cyc)
+    return {"nontrivial": nt, "classes": ["real", "real:" + arch, "cycles=%s" % (len(cyc) if len(cyc) < 4 else "4+")],
+            "key": [arch, text], "sample": {"arch": arch, "kernel": text.strip().split("\n"),
+                                            "cycles": sorted(sorted(c) for c in cyc)}}
+
+
 def plan(tier, seed):
     n = {"quick": 700, "thorough": 8000}[tier]
-    return [{"kind": "synthetic", "isa": "x86" if i % 2 == 0 else "aarch64", "seed": seed * 1000 + 500 + i,
-             "n": n, "max_len": 10 if i % 4 < 2 else 6} for i in range(16)]
+    shards = [{"kind": "synthetic", "isa": "x86" if i % 2 == 0 else "aarch64", "seed": seed * 1000 + 500 + i,
+               "n": n, "max_len": 10 if i % 4 < 2 else 6} for i in range(12)]
+    nr = {"quick": 250, "thorough": 4000}[tier]
+    xa, aa = (["zen1", "spr", "zen3", "hsw"], ["n1", "tx2", "a64fx", "v2"]) if tier == "quick" else \
+        (env.X86_ARCHS, env.A64_ARCHS)
+    shards += [{"kind": "real", "isa": "x86", "archs": xa[0::2], "seed": seed * 1000 + 550, "n": nr},
+               {"kind": "real", "isa": "x86", "archs": xa[1::2], "seed": seed * 1000 + 551, "n": nr},
+               {"kind": "real", "isa": "aarch64", "archs": aa[0::2], "seed": seed * 1000 + 552, "n": nr},
+               {"kind": "real", "isa": "aarch64", "archs": aa[1::2], "seed": seed * 1000 + 553, "n": nr}]
+    return shards
 
 
 def run_shard(spec):
     stats = Stats()
+    if spec["kind"] == "real":
+        from checks import c03_real
+        from hypothesis import strategies as st_
+
+        strat = c03_real.cases(spec["isa"], spec["archs"]).map(lambda c: dict(c, flagdeps=False, kind="real5"))
+        failures = hyp_search(ID, strat, check_case, stats, seed=spec["seed"], max_examples=spec["n"])
+        return {"stats": stats.to_dict(), "failures": failures}
     strat = deps.dep_cases(isa=spec["isa"], max_len=spec["max_len"], big_lines=True, lcd_safe=True)
     failures = hyp_search(ID, strat, check_case, stats, seed=spec["seed"], max_examples=spec["n"])
     from checks import c03
